@@ -26,6 +26,20 @@ structure NumOK (ns : NumSem) : Prop where
   typed : ∀ opcode k args v, lookupAssoc Gen.emitTable opcode = some k → ns.sem opcode args = .val v →
     ∀ a, args.head? = some a → vtOf v = numResTy opcode k (vtOf a)
 
+/-- what the simulation needs to know about callees: arities agree with the module's types, results
+    are typed, and the emitted-C side of a callee refines its specification side -/
+structure CallOK (ns : NumSem) (ctx : Ctx) : Prop where
+  arity : ∀ fn ti ft, ctx.funcTypeIdx[fn]? = some ti → ctx.types[ti]? = some ft → ft.results.length ≤ 1 →
+    ns.callArity fn = some (ft.params.length, ft.results.head?.map vtOfW)
+  typed : ∀ fn n t args v, ns.callArity fn = some (n, some t) → ns.callS fn args = .val (some v) → vtOf v = t
+  refVal : ∀ fn args r, ns.callS fn args = .val r → ns.callT fn args = .val r
+  refTrap : ∀ fn args t, ns.callS fn args = .trap t → ns.callT fn args = .trap t
+  indArity : ∀ ty ft, ctx.types[ty]? = some ft → ft.results.length ≤ 1 →
+    ns.indArity ty = some (ft.params.length, ft.results.head?.map vtOfW)
+  indTyped : ∀ ty n t i args v, ns.indArity ty = some (n, some t) → ns.indS ty i args = .val (some v) → vtOf v = t
+  indRefVal : ∀ ty i args r, ns.indS ty i args = .val r → ns.indT ty i args = .val r
+  indRefTrap : ∀ ty i args t, ns.indS ty i args = .trap t → ns.indT ty i args = .trap t
+
 def JumpOK (lab : Label) (base : Nat) (stk stkB : List Val) (locB : List Val) (σ σ' : MSt) : Prop :=
   σ'.locals = locB ∧ SlotsBelow lab.height σ σ' ∧ stkB.take base = stk.take base ∧ lab.height ≤ stkB.length ∧
   (∀ ty, lab.type = some ty → ∃ v, stkB.getLast? = some v ∧ σ'.get ⟨ty, lab.height⟩ = v)
